@@ -26,6 +26,8 @@ func C11(c *Ctx) {
 	r.Rule("C11-c", "every return of parse() has p.errs.err() as error result; err() returns nil iff len==0, else calls dedupe and returns the list; Parse returns newParser(...).parse(g) unchanged")
 	r.Rule("C11-d", "dedupe ranges over the slice, keeps an error iff its Error() text was not seen, in order")
 	r.Rule("C11-e", "parse(): `if p.recover { defer func(){ if e := recover(); e != nil { val = nil; addErr(e as error, or fmt.Errorf(\"%v\", e)); err = p.errs.err() } }() }` precedes the first read()/evaluation; newParser sets recover: true; only the Recover option assigns p.recover")
+	r.Rule("C11-h", "panic discipline of the runtime: its own panic sites are exactly the expression budget, the default of the dispatch in parseExpr and a nameless rule reference; no function the deferred recover handler reaches can panic (a panic raised while the handler records an error is recovered by nobody and escapes from Parse)")
+	runtimePanicDiscipline(c, "C11-h")
 
 	r.Rule("C11-g", "the display name the error prefix uses is the one the grammar gives: builder.writeRule emits displayName from the rule's DisplayName exactly when it is present (the pairing rule of C01-d under this property)")
 	builderPairingN(c, "C11-g", "writeRule")
